@@ -35,6 +35,7 @@ def rules(ctx):
     c056(ctx)
     c057(ctx)
     c058(ctx)
+    c059(ctx)
 
 
 def c055(ctx):
@@ -371,3 +372,44 @@ def c058(ctx):
             ctx.check(R, f, "forwards-arguments", ok and any(c.endswith("get_builder") for c in P.origin_calls(f, a[0])),
                       "%s forwards key, timestamp%s to the builder get_builder returned" % (m, ", value" if m == "put" else ""),
                       "SstMultiBuilder::%s does not forward its own arguments to the current builder" % m, pt=pt)
+
+
+# ------------------------------------------------------------------------------------------------
+# C05.9 the multi-builder cuts its outputs only between two different keys
+
+def c059(ctx):
+    R = "C05.9"
+    ctx.declare(R, "compaction outputs are cut only between two different keys (or when a table is full): a level never holds the versions of one "
+                   "key in two files, so no compaction can carry the newer ones below the older ones")
+    f = ctx.fn(R, "sst::SstMultiBuilder::get_builder")
+    if not f:
+        return
+    seals = [p_ for p_ in P.call_points(f, r"sst::SstBuilder as sst::Builder>::seal$")]
+    ctx.floor(R, "get_builder rotations", len(seals), 1)
+    full_edges, differ_edges = set(), set()
+    for b in P.switch_blocks(f):
+        srcs = P.switch_cond_sources(f, b.idx)
+        negs = sum(1 for x in srcs if x["k"] == "un" and x["op"] == "Not")
+        for s_ in srcs:
+            if s_["k"] == "bin" and s_["op"] in ("Ge", "Gt"):
+                named = [c.get("named", "") for c in P.origin_consts(f, s_["st"]["rv"]["b"])]
+                if any(n.endswith("TABLE_FULL_SIZE") for n in named):
+                    full_edges.add((b.idx, "sw:0" if negs % 2 else "sw:1"))
+            elif s_["k"] == "call" and re.search(r"::(ne|eq)$", s_["callee"]) and len(s_["t"]["args"]) == 2:
+                a0, a1 = s_["t"]["args"]
+                f0 = {x["f"] for x in P.origins(f, a0) if x["k"] == "field"}
+                f1 = {x["f"] for x in P.origins(f, a1) if x["k"] == "field"}
+                p0 = any(x["k"] == "param" and x["i"] >= 2 for x in P.origins(f, a0))
+                p1 = any(x["k"] == "param" and x["i"] >= 2 for x in P.origins(f, a1))
+                if ("last_key" in f0 and p1) or ("last_key" in f1 and p0):
+                    differ = s_["callee"].endswith("ne")
+                    if negs % 2:
+                        differ = not differ
+                    differ_edges.add((b.idx, "sw:1" if differ else "sw:0"))
+    for p_ in seals:
+        q = P.reach(f, P.ENTRY, [p_], avoid_edges=full_edges | differ_edges)
+        ctx.check(R, f, "cut-between-keys", q is None and bool(full_edges | differ_edges),
+                  "an output is sealed and a new one started only where the incoming key differs from the builder's last key, or the table is full",
+                  "SstMultiBuilder::get_builder starts a new output whenever the current one reaches the target size, also between two versions of one "
+                  "key: the level then holds [.. K(newer)] [K(older) ..], and a trivial move or compaction that takes the first file alone puts the "
+                  "newer versions of K beneath the older ones -- a point read stops at the older one", pt=p_, path=q)
